@@ -1,5 +1,6 @@
 """C12 -- geometric-kNN entropy obeys the laws of a differential entropy estimate."""
 import math
+import re
 from fractions import Fraction
 
 import numpy as np
@@ -8,12 +9,13 @@ import lib
 from lib import qlit, zlist, zlit, coq_list, coq_bool
 
 IMPORTS = ("From Coq Require Import List ZArith QArith Bool.\nImport ListNotations.\n"
-           "From CE Require Import Model.Harness Model.KnnCounts Model.Itv Model.GeoKnn Model.GeoEllipsoid.\nOpen Scope Z_scope.\n")
+           "From CE Require Import Model.Harness Model.KnnCounts Model.Itv Model.GeoKnn Model.GeoEllipsoid Model.GeoRank.\nOpen Scope Z_scope.\n")
 TOL = 1e-8                      # the property's tolerance
 TOLQ = "1, 100000000"
 BALL = {1: 2.0, 2: math.pi, 3: 4 * math.pi / 3, 4: math.pi ** 2 / 2, 5: 8 * math.pi ** 2 / 15}
 SVD = np.linalg.svd             # the library routine itself, captured before any spy is installed
 GUARD = 1e-12                   # the implementation's absolute guard
+RANK_TOL = 1e-6                 # "numerically zero": trailing / leading singular value of a neighbourhood with k < d (Model/GeoRank.E12 = 1/RANK_TOL^2)
 
 
 # ------------------------------------------------------------------ independent evaluation of the published formula
@@ -158,6 +160,37 @@ def oracle_from_spy(P, S_, k, rec):
     return svl, insl, nbl
 
 
+def rank_pairs(rec, N, k, d):
+    """(leading, last) squared singular values of each recorded SVD call, as exact rationals, read from the raw spy record
+    (no assumption that the recorded input is a centred neighbourhood); an unreadable record gives (0, 1), which the Coq
+    check rejects"""
+    out = []
+    for i in range(N):
+        try:
+            S = np.asarray(rec[i][1][1], dtype=float)
+            if S.shape != (min(k + 1, d),) or not np.all(np.isfinite(S)):
+                raise ValueError
+            out.append((Fraction(float(S[0])) ** 2, Fraction(float(S[-1])) ** 2))
+        except Exception:
+            out.append((Fraction(0), Fraction(1)))
+    return out
+
+
+def coqchk_mx(chk):
+    """thorough tier: the independent checker on the mathcomp property file as well"""
+    rc, out = lib.sh(["timeout", "2400", "coqchk", "-silent", "-o", "-Q", lib.COQ, "CE", "CE.Properties.C12Mx"], timeout=2500)
+    axioms, sect = [], None
+    for line in out.splitlines():
+        m = re.match(r"^\* (.*?):\s*(.*)$", line.strip())
+        if m:
+            sect = m.group(1)
+            continue
+        if sect == "Axioms" and line.strip():
+            axioms.append(line.strip())
+    chk.oblige("coqchk", "coqchk -o CE.Properties.C12Mx", rc == 0 and not axioms,
+               "axioms of all loaded libraries: none" if rc == 0 and not axioms else f"rc={rc} axioms={axioms} tail={out[-400:]}")
+
+
 def entropy_case_body(P, S_, k, svl, insl):
     N, d = P.shape
     svt = coq_list([coq_list([qlit(x) for x in sv]) for sv in svl])
@@ -199,6 +232,11 @@ def run(chk):
     from scipy.spatial.distance import cdist
     rng = np.random.default_rng(chk.seed)
     chk.theorems()
+    for r in lib.check_theorems("C12Mx"):      # mathcomp theorems (rank of the centred neighbourhood) live in a file of their own
+        chk.oblige("theorem", r["name"], r["ok"], r.get("error", "") or ("axioms: " + (", ".join(r["axioms"]) or "none")))
+        chk.extra.setdefault("theorem_axioms", {})[r["name"]] = r["axioms"]
+    if chk.tier == "thorough":
+        coqchk_mx(chk)
     import translate_C12
     lib.translator_lemma(chk, "geo_facts", translate_C12.geo_facts, translate_C12.coq_geo_facts, "")
     quick = chk.tier == "quick"
@@ -209,8 +247,13 @@ def run(chk):
         "numpy.linalg.svd is an ORACLE for d >= 3: its singular values are recorded by a spy, accepted only after a numeric check "
         "(reconstruction, orthogonality <= 1e-10, ordering) and enter the model as exact rationals (squares of the floats); the inside-counts "
         "derived from the checked factors are compared with an exact rational evaluation of the ellipsoid test inside Coq "
-        "(Model/GeoEllipsoid.v, an executable function without a proved specification); for d = 1 and d = 2 the value is "
+        "(Model/GeoEllipsoid.v; its specification is PROVED for k >= d, every d: the value is the quadratic form z^T (Y^T Y)^-1 z, the count "
+        "is the number of neighbours with value <= 1, and the implementation's sum over singular vectors equals it given an exact "
+        "eigen-decomposition as hypothesis; for k < d the returned 0 is justified at the mathcomp level only); for d = 1 and d = 2 the value is "
         "additionally enclosed with NO recorded SVD data (d = 1: exact rational; d = 2: closed form with a square root)",
+        "rank <= k of the centred neighbourhood: proved for abstract mathcomp matrices (GeoRankMx.v / Properties/C12Mx.v); on the list model "
+        "(Model/GeoRank.v) the column-sum fact is proved, the determinants (cofactor expansion over Z, cross-checked against Model/Gauss.v's "
+        "pivots over Q) are EVALUATED on every recorded neighbourhood; no refinement between 'M_(m,n) and lists is proved (as in C08/C08Mx)",
         "harness/props/C12.py: scaling of dyadic samples to integers, recovery of the neighbour lists from the spy's SVD inputs, "
         "the explicit-loop evaluation of the published formula used as the property predicate, the genericity filter",
         "scipy cdist / gamma are compared, not modelled"]
@@ -232,6 +275,9 @@ def run(chk):
     oc, op_, od = [], [], []                # d = 1 cases without any oracle
     tc, tp, td_ = [], [], []                # d = 2 cases without any oracle (closed form with sqrt)
     xc, xd = [], []                         # inside-counts against the exact rational ellipsoid test
+    rc_, rp_, rd_ = [], [], []              # rank of the centred neighbourhoods: exact determinants vs recorded singular values
+    rank_ctl = []                           # negative control: a k < d case whose trailing singular value is NOT small
+    rank_stat = {"k<d.worst_trailing_over_leading": 0.0, "k>=d.smallest_last_over_leading": float("inf")}
 
     def add_entropy_case(P, S_, k, tag, law_ref=None):
         """run the implementation on P / S_ with the spy; law_ref = (value of the base sample, expected difference, what)"""
@@ -267,6 +313,21 @@ def run(chk):
         if tag == "base" or not quick:          # the transformed copies have the same counts; they are re-checked in the thorough tier
             xc.append(f"({d}%nat, {k}%nat, {pts_term(P)}, {zlist(insl)})")
             xd.append(desc)
+        # rank tie (Model/GeoRank.v): read from the RAW spy record, so it does not depend on the recorded input being centred
+        prs = rank_pairs(spy.rec, N, k, d)
+        rc_.append(f"({d}%nat, {k}%nat, {pts_term(P)}, {coq_list([f'({qlit(a)}, {qlit(b)})' for a, b in prs])})")
+        rp_.append(fail)
+        if k < d and not rank_ctl:
+            rank_ctl.append(f"({d}%nat, {k}%nat, {pts_term(P)}, {coq_list([f'({qlit(a)}, {qlit(a)})' for a, _ in prs])})")
+        rd_.append({**desc, "leading_and_last_squared_singular_values": [[str(a), str(b)] for a, b in prs[:3]]})
+        for a, b in prs:
+            if a > 0:
+                ratio = math.sqrt(float(b / a))
+                if k < d:
+                    rank_stat["k<d.worst_trailing_over_leading"] = max(rank_stat["k<d.worst_trailing_over_leading"], ratio)
+                else:
+                    rank_stat["k>=d.smallest_last_over_leading"] = min(rank_stat["k>=d.smallest_last_over_leading"], ratio)
+        chk.count("rank.neighbourhoods.k<d" if k < d else "rank.neighbourhoods.k>=d", N)
         if d == 2:
             tc.append(f"({S_}, {k}%nat, {pts_term(P)}, {val_q(h)}, {TOLQ})")
             tp.append(fail)
@@ -286,6 +347,8 @@ def run(chk):
     while t < n_base:
         d = 1 + t % 5 if t < 5 else int(rng.integers(1, 6))
         k = int(rng.integers(1, 9))
+        if t == 4:
+            k = 1 + (k - 1) % 4             # the d = 5 base sample always has k < d (rank-deficient neighbourhoods: finding F6, rank tie)
         N = int(rng.integers(k + 2, (13 if t % 2 else 21) if quick else 41))
         kind = "integer" if rng.random() < 0.3 else "dyadic"
         P, S_ = grid_points(rng, N, d, kind)
@@ -318,8 +381,12 @@ def run(chk):
             v_bad = ed[0]["returned"] + 1e-6
             vals = lib.run_cases(chk.pid, "negative_control", IMPORTS, "", [f"check_geo_case ({body}, {val_q(v_bad)}, {TOLQ})"])
             chk.oblige("control", "enclosure check rejects a value off by 1e-6", vals[0] == "false", f"got {vals[0]}")
+        if rank_ctl:
+            vals = lib.run_cases(chk.pid, "negative_control_rank", IMPORTS, "", [f"check_rank_case {rank_ctl[0]}"])
+            chk.oblige("control", "rank check rejects a k < d neighbourhood whose trailing singular value equals the leading one",
+                       vals[0] == "false", f"got {vals[0]}")
 
-    # the small correspondences: in the quick tier they run side by side (1+2+1+1+1 = 6 coqc processes), otherwise one after another
+    # the small correspondences: in the quick tier they run side by side (1+2+1+1+2+1 = 8 coqc processes), otherwise one after another
     side = [
         lambda j: lib.correspond(chk, "neighbour_sets_radii_and_d1_inside_counts_exact", IMPORTS, "nat * list point * list (list point) * list Z",
                                  "check_skel_case", sc, sp_, lambda i: sd[i], shard=40 if quick else 100, jobs=j or 6),
@@ -329,6 +396,9 @@ def run(chk):
                                  "check_geo1_case", oc, op_, lambda i: od[i], shard=10, jobs=j or 6),
         lambda j: lib.correspond(chk, "d2_entropy_in_enclosure_without_oracle", IMPORTS, "Z * nat * list point * Z * Z * Z * Z",
                                  "check_geo2_case", tc, tp, lambda i: td_[i], shard=6, jobs=j or 6),
+        lambda j: lib.correspond(chk, "centred_neighbourhood_rank_exact_determinants_vs_recorded_singular_values", IMPORTS,
+                                 "nat * nat * list point * list (Q * Q)", "check_rank_case", rc_, rp_, lambda i: rd_[i],
+                                 shard=13 if quick else 60, jobs=2 * j or 6),
         lambda j: control()]
     if quick:
         from concurrent.futures import ThreadPoolExecutor
@@ -338,6 +408,8 @@ def run(chk):
     else:
         for f in side:
             f(0)
+
+    chk.extra["rank_measured"] = {k_: (v if math.isfinite(v) else None) for k_, v in rank_stat.items()}
 
     # ------------------------------------------------------------------ B. signed sums (MI floored, CMI) on grid samples, in Coq
     mc, mp, md = [], [], []
@@ -411,6 +483,7 @@ def run(chk):
     def report(what, replay):
         chk.violation("counterexample", what, replay)
 
+    float_rank = {"worst": 0.0, "n": 0}       # measured only: trailing / leading singular value of shifted float neighbourhoods with k < d
     n_formula = 25 if quick else 600
     n_laws = 60 if quick else 2000
     t = 0
@@ -457,7 +530,15 @@ def run(chk):
                 chk.count("laws.skipped_nongeneric_image")
                 chk.count(f"skipped.{e}")
                 continue
-            ht = H(Xt, k)
+            if k < d and what.startswith("translation"):
+                with SvdSpy() as spy_t:
+                    ht = H(Xt, k)
+                for _, out_t in spy_t.rec:
+                    if out_t is not None and len(out_t) == 3 and len(out_t[1]) == k + 1 and out_t[1][0] > 0:
+                        float_rank["worst"] = max(float_rank["worst"], float(out_t[1][-1] / out_t[1][0]))
+                        float_rank["n"] += 1
+            else:
+                ht = H(Xt, k)
             chk.count("laws.checked")
             chk.case(key=("law", what[:8], X.tobytes(), k), nontrivial=True)
             if not math.isfinite(ht) or abs(ht - h - delta) > TOL:
@@ -467,6 +548,9 @@ def run(chk):
         h_again = H(X, k)                       # the same arguments after other calls: the estimate has no memory
         if not abs(h_again - h) <= TOL:
             report(f"geometric_knn_entropy returned {h} and later {h_again} for the same arguments (N={N}, d={d}, k={k})", base)
+
+    chk.extra["rank_measured"]["float.shifted.k<d.worst_trailing_over_leading"] = float_rank["worst"]
+    chk.extra["rank_measured"]["float.shifted.k<d.neighbourhoods"] = float_rank["n"]
 
     # MI / CMI as signed sums on float samples, through the estimator functions and the dispatcher
     n_sum = 24 if quick else 500
@@ -614,7 +698,9 @@ def run(chk):
                 "must lie within 1e-8 of the verified interval enclosure of the model; each base sample is also translated by an integer "
                 "vector, mapped by a signed coordinate permutation, scaled by c/e (c odd <= 7, e a power of two) and row-permuted, with the "
                 "law checked on the implementation and the model re-evaluated; neighbour sets and radii recovered from the spy are compared "
-                "exactly, the inside-counts against an exact rational ellipsoid test; d = 1 and d = 2 cases are additionally evaluated with NO SVD data. MI (floored) / CMI signed sums likewise on grids, via the "
+                "exactly, the inside-counts against an exact rational ellipsoid test (proved specification); for every recorded neighbourhood the exact integer "
+                "Gram determinants (0 when k < d, non-zero when k >= d) are computed in Coq and, when k < d, the recorded trailing singular value must be "
+                "<= 1e-6 x the leading one (rank <= k, the reason only k singular values are read); d = 1 and d = 2 cases are additionally evaluated with NO SVD data. MI (floored) / CMI signed sums likewise on grids, via the "
                 "estimator functions and the dispatcher. Arbitrary affine-mixed Gaussian floats (scales 0.1..10): the entropy against the "
                 "explicit-loop evaluation of the published formula, the four laws with Haar orthogonal maps, shifts up to 1e4 x the data "
                 "scale, a in [0.1, 10], and the MI/CMI signed sums incl. the Z=None default-k path, each sample evaluated for k, another k, and k "
